@@ -339,6 +339,20 @@ func (m *mapOrder) explain(d *DesignRef, ctl string, diff []string) string {
 	return what
 }
 
+// siteRemarks documents the static sites that no design of the envelope can drive with two or
+// more keys (reviewed by hand; the evidence lists them so that a change of goa shows up).
+var siteRemarks = map[string]string{
+	"expr/attribute.go:AttributeExpr.debug#1":                  "debugging helper, no caller in the generators",
+	"http/codegen/openapi/json_schema.go:Schema.Dup#1":         "Schema.Dup has no caller in goa's non-test code",
+	"http/codegen/openapi/json_schema.go:Schema.Dup#2":         "Schema.Dup has no caller in goa's non-test code",
+	"http/codegen/openapi/json_schema.go:propertiesFromDefs#1": "only called by APISchema, which has no caller in the generators",
+	"codegen/funcs.go:SnakeCase#1":                             "ranges over the static one-entry table toLower",
+	"http/codegen/openapi/v3/builder.go:buildOperation#3":      "ranges over the content map of a response, which holds exactly one media type",
+	"http/codegen/openapi/v3/response.go:responseFromExpr#1":   "guarded by len(cookies) == 1",
+	"http/codegen/openapi/merge.go:Schema.Merge#2":             "TypeSchema never fills Definitions of the schema it returns",
+	"expr/mapped_attribute.go:MappedAttributeExpr.Delete#1":    "only called on body mapped attributes built from payload/result attribute names, which carry no \"attr:wire\" mapping: the reverse map is empty",
+}
+
 // RunMapOrder is exploration 1.
 // Designs in full get the complete deviation menu, the others the reduced one; designs in pairs
 // additionally get the bound-2 deviations.
@@ -406,6 +420,15 @@ func RunMapOrder(c *core.Ctx, e *Env, designs []*DesignRef, full, pairDesigns ma
 	c.Note("sites_reached_only_with_0_or_1_key", unreached2)
 	c.Note("sites_uncontrolled", uncontrolled)
 	c.Note("site_reach", reach)
+	remarks := map[string]string{}
+	for _, id := range append(append([]string{}, unreached...), unreached2...) {
+		if r, ok := siteRemarks[id]; ok {
+			remarks[id] = r
+		} else {
+			remarks[id] = "NOT EXPLAINED: no selected design drives this site with two or more keys"
+		}
+	}
+	c.Note("site_remarks", remarks)
 	c.Note("map_order_designs_generated", m.stats.baselines)
 	c.Note("map_order_designs_not_generated_by_goa", m.stats.notGenerated)
 	c.Note("map_order_bound1_runs", m.stats.deviations)
